@@ -167,9 +167,6 @@ def run(tier: str, seed: int, replay=None) -> int:
     diff_fields = 0
     for m, r in zip(metas, mres):
         rep.count("meta:" + json.dumps(m), True)
-        if "fatal" not in r and r["fresh"] != r["after"] and dead_target_class(m) and dead_target_match(m, r):
-            inst["C14-c"] = inst.get("C14-c", 0) + 1
-            continue
         if "fatal" in r or r["fresh"] != r["after"]:
             nbad += 1
             if nbad <= 3:
